@@ -62,12 +62,12 @@ def shape(x):
 
 
 def analyse(text):
-    from vyxal.lexer import tokenise
-    from vyxal.parse import parse
-
-    toks = tokenise(text)
     try:
-        tree = shape(parse(toks))
+        toks = sandbox.tokenise(text)
+    except sandbox.NonTermination:
+        return [], "tokenise does not terminate"
+    try:
+        tree = shape(sandbox.parse(toks))
     except Exception as e:  # noqa
         tree = "raises " + type(e).__name__
     return toks, tree
